@@ -64,6 +64,26 @@ Theorem C13_missing_all_named : forall D fs ps gs tail,
     Err (MissingRequiredTags (sort_N (dedup missing))).
 Proof. exact missing_all_named. Qed.
 
+(* ... and for the class, every layout and every value of it: a second copy of ANY present tagged group, appended behind the
+   groups and followed by anything, is rejected as a duplicate naming that group's tag (layouts without a repeated tagged field:
+   there a second occurrence of the tag is more elements, by the wire format) *)
+Theorem C13_duplicate_rejected_for_the_class : forall fs v pl, canon_anyorder fs v = Some pl -> no_tagged_vec fs = true ->
+  exists vs (pos : bytes) (gs : list group), v = VRec vs /\ pl = pos ++ gbytes gs /\
+    forall d after fuel, In d gs -> (depth_fields fs <= S fuel)%nat ->
+      dec_struct_with (dec fuel) fs (pos ++ gbytes gs ++ g_bytes d ++ after) = Err (DuplicateTag (g_tag d)).
+Proof. exact canon_duplicate_rejected. Qed.
+
+(* ... and removing ANY subset of the tagged groups of a value of the class: if a mandatory field is then absent, the error names
+   exactly the mandatory tags that are absent, all of them (sorted, without repetition) *)
+Theorem C13_missing_all_named_for_the_class : forall fs v pl, canon_anyorder fs v = Some pl ->
+  exists vs (pos : bytes) (gs : list group), v = VRec vs /\ pl = pos ++ gbytes gs /\
+    forall (keep : group -> bool) fuel, (depth_fields fs <= S fuel)%nat ->
+      let gs' := filter keep gs in
+      let missing := filter (fun t => negb (existsb (N.eqb t) (map g_tag gs'))) (required_tags fs) in
+      missing <> nil ->
+      dec_struct_with (dec fuel) fs (pos ++ gbytes gs') = Err (MissingRequiredTags (sort_N (dedup missing))).
+Proof. exact canon_missing_named. Qed.
+
 (* a tag the packet type does not know ends the loop: with tail = u ++ junk, the three theorems above
    (whose only demand on the tail is tail_ok) give exactly the value of the preceding groups and hand
    u ++ junk back untouched *)
@@ -96,6 +116,8 @@ Example C13_ex_swapped_order :
 Proof. vm_compute. reflexivity. Qed.
 
 Print Assumptions C13_perm_invariant.
+Print Assumptions C13_duplicate_rejected_for_the_class.
+Print Assumptions C13_missing_all_named_for_the_class.
 Print Assumptions C13_any_order_for_the_class.
 Print Assumptions C13_any_order_commands.
 Print Assumptions C13_shipped_layouts_in_anyorder_class.
